@@ -67,6 +67,8 @@ def run(ctx):
     kinds = collections.Counter()
     if rows is None:
         ctx.obligation("Model/TablesGaps.v evaluates", False, (log or "")[-400:])
+        ctx.violation("C05: the disagreeing rows could not be computed (coqc on Model/TablesGaps.v failed or timed out)",
+                      {"no_failing_input": True, "broken": "Model/TablesGaps.v", "log": (log or "")[-800:]})
         rows, sizes = [], {}
     else:
         specs = [T.first_cell(r) for r in rows]
